@@ -150,6 +150,11 @@ pub fn block_of(addr: usize) -> Option<(usize, usize)> {
     r
 }
 
+/// Number of live tracked heap blocks.
+pub fn live() -> usize {
+    LIVE.load(Ordering::SeqCst)
+}
+
 #[allow(static_mut_refs)]
 pub fn watch(addr: usize) {
     lock();
